@@ -300,6 +300,37 @@ def path_exists_with_facts(fn, G, targets, required, start=0):
     return False
 
 
+def exit_assuming(fn, G, assumed, allowed_blocks, start=0):
+    """Assume the facts `assumed` hold on entry (they are about state the path does not write). Is a `return`
+    reachable along a path that never takes an edge establishing the negation of an assumed fact and never passes
+    through one of `allowed_blocks`? Returns the block that last defined the return value on such a path, or None."""
+    negs = {negation(a) for a in assumed}
+    allowed = set(allowed_blocks)
+    seen = set()
+    stack = [(start, None)]
+    while stack:
+        b, lastdef = stack.pop()
+        if (b, lastdef) in seen or b in allowed:
+            continue
+        seen.add((b, lastdef))
+        blk = fn.blocks[b]
+        if blk.get("cleanup"):
+            continue
+        for s in blk["stmts"]:
+            if s["k"] == "assign" and s["place"]["local"] == 0:
+                lastdef = b
+        t = blk["term"]
+        if t["k"] == "call" and t["dest"]["local"] == 0:
+            lastdef = b
+        if t["k"] == "return":
+            return lastdef if lastdef is not None else b
+        for s in fn.succs(b):
+            if G.edge_facts.get((b, s), set()) & negs:
+                continue
+            stack.append((s, lastdef))
+    return None
+
+
 def negation(f):
     if f[0] == "bool":
         return ("bool", f[1], not f[2])
